@@ -46,7 +46,7 @@ static void enumerate(int st, std::vector<int> & cur, int maxlen, std::vector<st
 struct TrackedCan : ObjectHeader {      // CanMessage is final: same wire format (ObjectHeader + 16 body bytes) with a destructor that counts
     static std::map<uint32_t, int> freed; static long live;
     uint32_t tid; uint8_t body[16];
-    explicit TrackedCan(uint32_t t) : ObjectHeader(ObjectType::CAN_MESSAGE), tid(t) { live++; objectTimeStamp = t; memset(body, 0, sizeof body); body[0] = 1; body[3] = 8; memcpy(body + 4, &t, 4); }
+    explicit TrackedCan(uint32_t t, ObjectType ty = ObjectType::CAN_MESSAGE) : ObjectHeader(ty), tid(t) { live++; objectTimeStamp = t; memset(body, 0, sizeof body); body[0] = 1; body[3] = 8; memcpy(body + 4, &t, 4); }
     ~TrackedCan() override { freed[tid]++; live--; }
     void write(AbstractFile & os) override { ObjectHeader::write(os); os.write(reinterpret_cast<char *>(body), sizeof body); }
     uint32_t calculateObjectSize() const override { return ObjectHeader::calculateObjectSize() + sizeof body; }
@@ -101,7 +101,8 @@ static Outcome run_history(const std::vector<int> & h, int fsz, bool controlled,
                 }
                 break;
             }
-            case WRITE: f->write(new TrackedCan(++nwritten)); if (!f->good() || f->eof()) fail("flags-after-write", at); break;
+            case WRITE: ++nwritten; f->write(new TrackedCan(nwritten, nwritten % 3 == 2 ? ObjectType::Unknown115 : ObjectType::CAN_MESSAGE));   // every third one is a restore point container (same 16 body bytes: reserved[14] + dataLength 0), as a tool copying a Vector log writes them
+                if (!f->good() || f->eof()) fail("flags-after-write", at); break;
             case CLOSE: f->close(); if (st == 1 || st == 2) open = false; break;
             }
             st = next_state(st, sym);
